@@ -20,7 +20,43 @@ TRUSTED_BASE = [
     "A7: spec/*.h are the definition of 'per RFC 8949 / RFC 3629 / IEEE 754'",
 ]
 
+MANIFEST_NOTES = ("Contract-based deductive verification of the unmodified libcbor sources with CBMC 6.11 DFCC. "
+                  "Every check rebuilds goto binaries from /repo's working tree. Exit 0 = all obligations discharged, "
+                  "1 = VIOLATION (failed obligation, counterexample replayed natively where a replay exists), "
+                  "2 = UNDECIDED (tool failure / timeout / vacuity guard) - never reported as a violation. "
+                  "Whole-tree / whole-history statements are inductions over discharged per-node / per-operation steps "
+                  "and are labelled as meta-arguments in each evidence file.")
+
+NOT_APPLICABLE = {}
+
 PROPERTY_META = {}
+
+
+def META(pid, **kw):
+    PROPERTY_META[pid] = kw
+
+
+META("C20",
+     text="Unbounded proof for all 2^128 operand pairs: the real _cbor_safe_to_multiply/_cbor_safe_to_add/"
+          "_cbor_safe_signaling_add/_cbor_alloc_multiple/_cbor_realloc_multiple are enforced against contracts "
+          "stating 'guard true => mathematical product fits', 'sum exact or 0', 'granted block = exact product, one "
+          "request'; growth sites and serialized-size accumulation are proved per function on top of these contracts.",
+     note="Trusted: CBMC semantics and back ends, allocator model. 64-bit size_t only (no ILP32 headers in the image). "
+          "Sums over children of composite items: per-step exact-or-0 is proved, the fold over all children is a meta-argument.",
+     trusted=[], uncovered=["ILP32 re-run not possible in this image (no 32-bit libc headers): CHECK_LENGTH is trivially true on LP64"],
+     meta=["fold of the exact-or-0 accumulation step over all children of a composite item"])
+
+META("C08",
+     text="Unbounded proof: the real cbor_stream_decode (loop-free, all 256 initial bytes, every buffer length up to "
+          "2^40, every argument value including declared lengths up to 2^64-1) is enforced against a contract written "
+          "from the property statement and RFC 8949 section 3, with a recording callback table: exactly one of "
+          "FINISHED (one callback, matching kind, exact arguments, payload pointer inside the buffer, read = head+payload), "
+          "NEDATA (no callback, read 0, buffer length < required <= head+payload) or ERROR (iff reserved/unsupported "
+          "initial byte). Frame = recorder ghosts only (stateless, allocates nothing). Independence from trailing "
+          "bytes is a relational harness over two buffers.",
+     note="Trusted: CBMC, spec/head.h as the definition of an RFC 8949 head, ldexp model (validated natively in setup). "
+          "Buffers are limited to 2^40 bytes by the object/offset pointer model.",
+     trusted=[], uncovered=[], meta=[])
 
 PROOFS = []
 
@@ -70,3 +106,15 @@ P(name="realloc_multiple", props={"C20": [], "C12": [], "C06": [], "C13": [], "C
   harness="harness/memutils.c", defines=["H_REALLOC_MULTIPLE"], enforce=None,
   replace=["_cbor_safe_to_multiply"], also_verified=["_cbor_realloc_multiple"],
   min_covers=4, backend="cadical")
+
+# ------------------------------------------------------------------------------------------------
+# L1 streaming decoder (C08 and the properties that build on it)
+
+STREAMLIB = ["cbor/streaming.c", "cbor/internal/loaders.c"]
+REC_STUBS = ALLOC_STUBS + ["stubs/recorder.c", "stubs/ldexp_model.c"]
+
+P(name="stream_decode_contract",
+  props={"C08": FUNC + FRAME, "C01": SAFETY, "C13": [], "C09": FUNC, "C14": FUNC, "C02": FUNC, "C05": FUNC},
+  lib=STREAMLIB, stubs=REC_STUBS, contracts=["contracts/streaming.h"], defines=["VERIF_STREAM_CONTRACT"],
+  harness="harness/stream_decode.c", enforce="cbor_stream_decode", replay="stream_decode",
+  must_exist=[r"cbor_stream_decode\.postcondition\.14", r"rec_uint8\.assigns\.1"], min_covers=10, cost=30)
